@@ -197,7 +197,29 @@ class C02(Prop):
             a = [E(maybe_bad(rng.choice([8, 64, 2 ** 31]), 0.3))]
         steps = [{"t": "call", "m": m, "a": a, "k": k, "tag": "probe"},
                  {"t": "call", "m": "get", "a": [E(b"sentinel")], "k": {}, "tag": "sentinel"}]
-        return [{"property": self.id, "world": w, "steps": steps}]
+        scn = {"property": self.id, "world": w, "steps": steps}
+        if stack != "hash" and rng.random() < 0.12:
+            # the same token used once as a stats / cache_memlimit argument and once as a key (two call sites
+            # that validate through the same helper with different prefixes), in either order
+            tok = rng.choice(["items", "slabs", "settings", b"sizes", "64", b"128"])
+            if tok in ("64", b"128") and stack == "client":
+                other = {"t": "call", "m": "cache_memlimit", "a": [int(tok)], "k": {}}
+            else:
+                other = {"t": "call", "m": "stats", "a": [E(tok)], "k": {}}
+            keyed = {"t": "call", "m": rng.choice(["get", "set", "delete", "get_many", "delete_many", "touch"]),
+                     "a": [], "k": {}}
+            km = keyed["m"]
+            if km == "set":
+                keyed["a"] = [E(tok), E(b"v")]
+            elif km in ("get_many", "delete_many"):
+                keyed["a"] = [E([rng.choice(good), tok])]
+            else:
+                keyed["a"] = [E(tok)]
+            if rng.random() < 0.5:
+                scn["steps"] = [dict(other, tag="prelude"), dict(keyed, tag="probe"), steps[1]]
+            else:
+                scn["steps"] = [dict(keyed, tag="prelude"), dict(other, tag="probe"), steps[1]]
+        return [scn]
 
     # ---- the commands a call *means*, derived independently of the client
     def intent(self, scn, rec, args, kwargs):
@@ -263,20 +285,23 @@ class C02(Prop):
                 out.append((b"flush_all", None, (kwargs.get("delay", 0), nrp())))
             elif m == "cache_memlimit":
                 out.append((b"cache_memlimit", None, (b"%d" % args[0], False)))
+            elif m == "stats":
+                out.append((b"stats", None, tuple(x.encode("ascii") if isinstance(x, str) else x for x in args)))
         except Exception:
             return None
         return out
 
     def judge(self, scn, res):
         out = []
-        rec = res.by_step(0)
+        pi = next(i for i, st in enumerate(scn["steps"]) if st.get("tag") == "probe")
+        rec = res.by_step(pi)
         if rec is None:
             return out
-        args, kwargs = res.extra["args"][0]
+        args, kwargs = res.extra["args"][pi]
         node = res.world.nodes[0]
         stack = scn["world"]["stack"]
         sent = rec.sent
-        malformed = [o for o in res.world.obs if o["oracle"] == "malformed-request"]
+        malformed = [o for o in res.world.obs if o["oracle"] == "malformed-request" and o["call"] == rec.id]
         got = [(c[1], c[2], c[3]) for c in rec.commands]
         if sent == 0 and not rec.kinds.get("sendall"):
             if rec.outcome == "return" and rec.method not in ("get_many", "gets_many", "delete_many", "set_many"):
@@ -308,7 +333,7 @@ class C02(Prop):
                                     nwant=len(want), ngot=len(got)))
         out.extend(ownership_violations(res))
         # the sentinel get must see a clean connection
-        s = res.by_step(1)
+        s = res.by_step(pi + 1)
         if s is not None and not out and (s.outcome != "return" or s.value is not None) and \
                 not (s.outcome == "raise" and s.sent == 0):
             out.append(viol("sentinel-get-disturbed", s, got=s.enc_outcome()))
@@ -333,8 +358,9 @@ class C02(Prop):
         return tuple(sorted(cls))
 
     def trace_key(self, scn, res):
-        rec = res.by_step(0)
-        st = scn["steps"][0]
+        pi = next(i for i, st in enumerate(scn["steps"]) if st.get("tag") == "probe")
+        rec = res.by_step(pi)
+        st = scn["steps"][pi]
         args = [codec.dec(x) for x in st["a"]]
         kc = ()
         if args:
@@ -353,12 +379,16 @@ class C02(Prop):
     def probe_names(self):
         return ("rejected-before-sending", "accepted-and-parsed", "whitespace-only-key", "empty-key",
                 "key-at-250-boundary", "value-with-protocol-text-stored", "non-integer-argument",
-                "illegal-key-inside-multi-key-call", "unicode-key-accepted")
+                "illegal-key-inside-multi-key-call", "unicode-key-accepted",
+                "token-shared-between-stats-argument-and-key")
 
     def probes(self, scn, res):
         p = {}
-        rec = res.by_step(0)
-        st = scn["steps"][0]
+        pi = next(i for i, st in enumerate(scn["steps"]) if st.get("tag") == "probe")
+        rec = res.by_step(pi)
+        st = scn["steps"][pi]
+        if pi > 0:
+            p["token-shared-between-stats-argument-and-key"] = 1
         args = [codec.dec(x) for x in st["a"]]
         if rec.outcome == "raise" and rec.sent == 0:
             p["rejected-before-sending"] = 1
